@@ -34,11 +34,12 @@ struct Val {
   u64 c = 0;                       // concrete value (valid when !e)
   std::shared_ptr<z3::expr> e;     // symbolic bit-vector term of width w
   unsigned w = 64;
-  bool undef = false;              // derived from uninitialised memory
+  uint8_t undef = 0;               // byte mask: which bytes derive from uninitialised memory
   bool sym() const { return (bool)e; }
 };
 static inline u64 maskw(unsigned w) { return w >= 64 ? ~0ULL : ((1ULL << w) - 1); }
 static inline i64 sextw(u64 x, unsigned w) { return w >= 64 ? (i64)x : ((i64)(x << (64 - w)) >> (64 - w)); }
+static inline uint8_t umask(bool any, unsigned w) { return any ? (uint8_t)((1u << ((w + 7) / 8 > 8 ? 8 : (w + 7) / 8)) - 1) : 0; }
 static inline Val mk(u64 c, unsigned w) { Val v; v.c = c & maskw(w); v.w = w; return v; }
 Val mks(const z3::expr &e, unsigned w);
 z3::expr ex(const Val &v);
